@@ -43,7 +43,8 @@ Record inode := mkI {
   i_data : str;            (* volatile content (page cache) *)
   i_dur : str;             (* content as of the last fsync of this file *)
   i_nlink : nat;
-  i_owner : option nat     (* ghost: None = 0-byte reservation, Some a = temp file of writer a *)
+  i_owner : option nat;    (* ghost: None = 0-byte reservation, Some a = temp file of writer a *)
+  i_base : str             (* ghost: the base name it was created under *)
 }.
 
 Record fsys := mkF {
@@ -62,13 +63,13 @@ Fixpoint ino_upd (i : nat) (g : inode -> inode) (l : list inode) : list inode :=
   | x :: t, S j => x :: ino_upd j g t
   end.
 
-Definition dec_nlink (x : inode) := mkI (i_data x) (i_dur x) (pred (i_nlink x)) (i_owner x).
-Definition app_data (b : str) (x : inode) := mkI (i_data x ++ b) (i_dur x) (i_nlink x) (i_owner x).
-Definition sync_data (x : inode) := mkI (i_data x) (i_data x) (i_nlink x) (i_owner x).
+Definition dec_nlink (x : inode) := mkI (i_data x) (i_dur x) (pred (i_nlink x)) (i_owner x) (i_base x).
+Definition app_data (b : str) (x : inode) := mkI (i_data x ++ b) (i_dur x) (i_nlink x) (i_owner x) (i_base x).
+Definition sync_data (x : inode) := mkI (i_data x) (i_data x) (i_nlink x) (i_owner x) (i_base x).
 
 Definition fs_create (n : fname) (owner : option nat) (f : fsys) : fsys :=
   let i := length (f_ino f) in
-  mkF (dset n i (f_dir f)) (f_ddir f) (f_pend f ++ [(n, Some i)]) (f_ino f ++ [mkI [] [] 1 owner]).
+  mkF (dset n i (f_dir f)) (f_ddir f) (f_pend f ++ [(n, Some i)]) (f_ino f ++ [mkI [] [] 1 owner (fst n)]).
 
 Definition fs_unlink (n : fname) (f : fsys) : fsys :=
   match dlookup n (f_dir f) with
